@@ -196,7 +196,7 @@ def runWriter (song : Song) (d : DataInfo) (root : List Event) :
       match h with
       | some it =>
         match hook song d fuel c w it with
-        | .error x => .error x
+        | .error x => if x ≠ .fuel then .error (.player .jumpMissing) else .error x
         | .ok _ => .error (.player e)
       | none => .error (.player e)
     | .ok (s', t) =>
@@ -210,7 +210,11 @@ def runWriter (song : Song) (d : DataInfo) (root : List Event) :
         .ok (c, w)
       | some (some it) =>
         match hook song d fuel c w it with
-        | .error x => .error x
+        | .error x =>
+          -- `step_event` calls the hook of a JUMP inside `try { … } catch(std::exception&)`:
+          -- whatever the hook throws (InputError included) is re-thrown as
+          -- "jump destination doesn't exist"
+          if it.ev.type = ev_JUMP ∧ x ≠ .fuel then .error (.player .jumpMissing) else .error x
         | .ok (c', w') => runWriter song d root (fuel + 1) steps c' w' s'
 
 /-- `get_subroutine(track_id, in_drum_mode, drum_mode_enabled)` -/
